@@ -35,6 +35,11 @@ def register_custom():
                                     ["alpha", "num", "count", "when", "flags", "meta", "flag"])
         class A(object):
             pass
+    if "x-verif-idext" not in R["2.1"]["observables"]:
+        @stix2.v21.CustomObservable("x-verif-idext", [("alpha", P.StringProperty()), ("count", P.IntegerProperty()), ("other", P.StringProperty())], ["alpha", "count"],
+                                    extension_name="extension-definition--3f7f0c5f-5d54-4292-94ea-ec1e1952c0c1")
+        class A2(object):
+            pass
     if "x-verif-noid" not in R["2.1"]["observables"]:
         @stix2.v21.CustomObservable("x-verif-noid", [("alpha", P.StringProperty(required=True))])
         class B(object):
@@ -47,6 +52,8 @@ def register_custom():
                                                    "properties": dict(base, type={"kind": "type", "fixed": "x-verif-idsco"}, alpha={"kind": "string"}, num={"kind": "float"}, count={"kind": "integer"}, flag={"kind": "boolean"},
                                                                       when={"kind": "timestamp", "fraction": "any"}, flags={"kind": "list", "of": {"kind": "string"}}, meta={"kind": "dictionary"},
                                                                       other={"kind": "string"})}
+        sp.classes["observables:x-verif-idext"] = {"name": "A2", "category": "observables", "type": "x-verif-idext", "order": [], "id_contributing": ["alpha", "count"],
+                                                   "properties": dict(base, type={"kind": "type", "fixed": "x-verif-idext"}, alpha={"kind": "string"}, count={"kind": "integer"}, other={"kind": "string"})}
         sp.classes["observables:x-verif-noid"] = {"name": "B", "category": "observables", "type": "x-verif-noid", "order": [], "id_contributing": [],
                                                   "properties": dict(base, type={"kind": "type", "fixed": "x-verif-noid"}, alpha={"kind": "string", "required": True})}
 
@@ -280,7 +287,11 @@ def run_case(case, part):
                 "flag": [True, False],
                 "count": [0, 1, -1, 2 ** 53 + 1, 2 ** 60, 10 ** 21, 2 ** 68], "when": ["2016-05-12T08:17:27Z", "2016-05-12T08:17:27.000Z", "2016-05-12T08:17:27.120Z", "2016-05-12T08:17:27.123456Z"],
                 "flags": [["a"], ["a", "a"], ["b", "a"], ["a", "b"]], "meta": [{"key": "v"}, {"b": 1, "a": {"d": [1.5, {"z": None}], "c": 2}}, {"€": 1, "\U0001f600": 2, "דּ": 3}]}
-        if key == "observables:x-verif-noid":
+        if key == "observables:x-verif-idext":
+            # declared with id_contrib_props AND extension_name (the library adds the implicit extension itself; it does not contribute)
+            for i, kw in enumerate(({"alpha": "a"}, {"alpha": "a", "count": 0}, {"count": 7}, {"alpha": "", "other": "o"}, {"other": "only non-contributing"})):
+                check_instance(part, dict({"type": "x-verif-idext", "spec_version": "2.1"}, **kw), key, dict(case, index=i), "custom-observable-with-extension_name", collect)
+        elif key == "observables:x-verif-noid":
             check_instance(part, {"type": "x-verif-noid", "spec_version": "2.1", "alpha": "a"}, key, case, "custom-observable-without-contributing", collect)
         else:
             todo = [(n, i, v) for n, vs in vals.items() for i, v in enumerate(vs)]
